@@ -101,6 +101,14 @@ def run_case(case):
     Z = make_Z(r, N, case["zkind"])
     prof = make_profiles(r, nb, n, case["pkind"])
     s, ps, ef = build(case, prof, Z)
+    # "for every set of bunch profiles": whatever the field object was asked before must not matter
+    for op in case.get("prelude", []):
+        other = make_profiles(r, nb, n, "noise")
+        for b in range(nb):
+            s.ps_set_projection(ps, 0, b, other[b] * np.float32(7.0))
+        s.ef_do(ef, op[0], op[1] if len(op) > 1 else 0.0)
+    for b in range(nb):
+        s.ps_set_projection(ps, 0, b, prof[b])
     s.ef_do(ef, "wake")
     W = s.ef_get(ef, "wake").astype(np.float64)
     info = s.ef_info(ef)
@@ -108,7 +116,7 @@ def run_case(case):
     P, Wref, bound, w = reference(prof, Z, case["buckets"], case["spacing"], N, sc)
     used = Z[:N // 2]
     nontriv = bool((np.abs(used.imag) > 0).sum() >= len(used) / 4 and np.ptp(np.abs(used)) > 0)
-    cls = [gen.nclass(N), "nb%d" % min(nb, 3), "z_" + case["zkind"], "p_" + case["pkind"],
+    cls = [gen.nclass(N), "nb%d" % min(nb, 3), "z_" + case["zkind"], "p_" + case["pkind"], "prelude" if case.get("prelude") else "fresh",
            "emptybuckets" if case["nbuckets"] > nb else "full"]
     met = {}
     # scaling
@@ -193,10 +201,11 @@ def cases(draw):
                 zkind=draw(st.sampled_from(["complex", "complex", "complex", "smooth", "real", "const"])),
                 pkind=draw(st.sampled_from(["smooth", "impulse", "noise"])),
                 variant=draw(st.sampled_from(["none", "none", "neghalf", "linear", "shift"])),
+                prelude=draw(st.lists(st.sampled_from([["csr", 0.0], ["csr", 1e10], ["wake"], ["pad"]]), max_size=3)),
                 Lq=draw(st.sampled_from([4.0, 6.0])), Lp=draw(st.sampled_from([4.0, 6.0, 9.0])),
                 sigma_z=lg(1e-4, 1e-2), dE=lg(1e5, 1e6), frev=lg(1e5, 1e8), revpart=lg(1e-5, 1e-2),
                 Ib=lg(1e-5, 1e-1), E0=lg(1e8, 1e10), sE=lg(1e-4, 1e-3), dt=lg(1e-12, 1e-9))
 
 
 def subs(tier):
-    return [Sub("conv", cases(), run_case, quick=3000, thorough=100000)]
+    return [Sub("conv", cases(), run_case, quick=15000, thorough=100000)]
